@@ -244,6 +244,17 @@ func baseIntrinsics() map[string]intrinsicFn {
 		"runtime.KeepAlive", "runtime.GC", "runtime.Gosched", "runtime/debug.FreeOSMemory", "runtime.SetFinalizer", "runtime/debug.PrintStack"} {
 		m[n] = nop
 	}
+	// formatted output to a harness counting writer (a harness type named *CountWriter with a Tick method) is
+	// abstracted to "one output call": the text is not modelled, the number of calls is (native fmt also issues one
+	// Write per call).  Every other writer: formatted output is a no-op, as before.
+	for _, n := range []string{"fmt.Fprintf", "fmt.Fprintln", "fmt.Fprint"} {
+		m[n] = func(in *Interp, fn *ssa.Function, args []Value) Value {
+			if w, ok := args[0].(IfaceV); ok && w.T != nil && strings.HasSuffix(w.T.String(), "CountWriter") {
+				in.callMethod(w, "Tick")
+			}
+			return in.zeroResults(fn)
+		}
+	}
 	// worker pools sized by the CPU count get two workers in the model (enough for any interleaving of two)
 	m["runtime.NumCPU"] = func(in *Interp, fn *ssa.Function, args []Value) Value { return in.tb.Const(64, 2) }
 	m["runtime/debug.Stack"] = func(in *Interp, fn *ssa.Function, args []Value) Value { return SliceV{} }
